@@ -440,6 +440,21 @@ Eval vm_compute in (mismatches (fun '(r,h,f,v) => set_requires r h f v) oeqb c2)
             mism.append({"create": rows[i][0], "dtype": rows[i][2], "implementation": rows[i][1]})
         for i in lists[1]:
             mism.append({"set_requires": srows[i][0], "implementation": srows[i][1]})
+    # oracle (no Coq): the property's own statement of flag resolution, judged row by row on the implementation
+    for (requested, gm, is_float), res, how in rows:
+        want = None if (requested and gm and not is_float) else bool(requested and gm)
+        if res != want:
+            ctx.witness("Tensor.__init__/requires_grad", "flag-resolution", {"requested": requested, "grad_mode": gm, "floating_dtype": is_float, "construction": how},
+                        "raises" if want is None else {"requires_grad": want},
+                        "raises" if res is None else {"requires_grad": res} if isinstance(res, bool) else res)
+            break
+    for (req, has_fn, is_float, value), res in srows:
+        is_leaf = (not req) or (not has_fn)
+        want = None if (not is_leaf or (value and not is_float)) else bool(value)
+        if res != want:
+            ctx.witness("Tensor.requires_grad setter", "flag-resolution", {"requires_grad": req, "has_grad_fn": has_fn, "floating_dtype": is_float, "set_to": value},
+                        "raises" if want is None else {"requires_grad": want}, "raises" if res is None else {"requires_grad": res})
+            break
     ctx.tie("flags/creation+setter tables", "correspondence", len(rows) + len(srows), len(rows) + len(srows), mism, exhaustive=True,
             note="Tensor(..., requires_grad) for {requested}x{mode}x{6 dtypes}; requires_grad setter for every reachable (req, has_fn, float, value)")
 
